@@ -26,6 +26,7 @@ RULE = ('cases = random G-PIT programs (BatchNorm after conv/linear, bias on/off
         'under hard selection against the same network with that branch alone.  Non-trivial: the '
         'program contains a BatchNorm, a join or a depthwise layer (PIT), or >= 2 different '
         'branches (SuperNet); distinct = hash of (program, options).')
+RULE += ('  Round 2: BatchNorm with non-default eps; SuperNet seeds handed over in train mode, with user blocks whose behaviour depends on self.training.')
 ASSUMPTIONS = [
     'the user object\'s own .training flag is not asserted (PLiNIO\'s tracer calls model.eval() on '
     'it; the statement speaks of the mode the *conversion keeps*, i.e. the wrapper)',
